@@ -292,12 +292,12 @@ prop(
 prop(
     "C04",
     module="Aquatic.Props.C04",
-    extra_modules=["Aquatic.Props.Store"],
-    technique="Lean 4 proof (transition system of threads over the shared two-level state, one atomic step per lock-protected section: for every number of threads, program and schedule no step fails or blocks, the sequential view stays in simulation with the reference that receives each operation at one of its own steps, replies are the reference's at that step, held Arcs stay attached) + systematic enumeration of interleavings of the real code (threads serialised by a scheduler at hook gates) and a free-running stress with a watchdog",
+    extra_modules=["Aquatic.Props.Store", "Aquatic.Props.C04Locks"],
+    technique="Lean 4 proof (transition system of threads over the shared two-level state, one atomic step per lock-protected section: for every number of threads, program and schedule no step fails or blocks, the sequential view stays in simulation with the reference that receives each operation at one of its own steps, replies are the reference's at that step, held Arcs stay attached; lock skeleton with explicit RwLock modes regenerated-and-pinned from swarm.rs: mutual exclusion, locking discipline and deadlock-freedom under any work-conserving lock policy for every reachable state, every run terminates) + systematic enumeration of interleavings of the real code (threads serialised by a scheduler at hook gates) and a free-running stress with a watchdog",
     runs=[dict(harness="udpconc", driver="conc", quick=dict(cases=8, schedules=150), thorough=dict(cases=120, schedules=4000))],
     nontrivial=["interleaved", "torrent-removed", "free-running"],
-    level_text="Theorems, for any number of threads, any programs of announce / scrape / clean and ANY schedule of their steps (one step per lock-protected section: A1 find-or-create + clone Arc, A2 announce under the peer map lock, S one scrape entry, C1 snapshot of a shard, C2 clean one peer map, C3 retain of a shard): every step of every thread succeeds in every reachable state (nothing blocks: deadlock-free at this granularity; no panic); the sequential view of the shared state remains in simulation with the reference tracker to which each announce is applied at its A2 step, each torrent's cleaning at its C2 step, each scrape entry at its S step - points inside the operation's own execution; every announce reply and scrape entry equals the reference's at that point; every Arc held between steps stays the one stored for its torrent (retain keeps shared or non-empty torrents), hence an answered announce is stored. Tie: real threads over one shared TorrentMaps, stopped at gates in the lock-free gaps (hook) and released one at a time; all interleavings of small programs (2-3 threads, torrents in one or two shards, deadlines straddling the cleaning time, incl. the pass that finds a torrent empty while an announce holds its Arc) are enumerated depth-first and each compared with the model run on the same schedule and with the reference at the linearization points; plus 8 free-running threads x 3000 operations under a watchdog.",
-    level_note="partial for the runtime part: that each lock-protected section is atomic and that acquiring shard -> peer map locks in that order cannot deadlock rests on parking_lot's RwLock; it is exercised by the gated runs (a thread blocked at a lock held across a gate is reported as HANG) and the free-running stress, not proved. One address family and the 16 shards by first hash byte are modelled; access lists are outside C04's quantifier.",
+    level_text="Theorems, for any number of threads, any programs of announce / scrape / clean and ANY schedule of their steps (one step per lock-protected section: A1 find-or-create + clone Arc, A2 announce under the peer map lock, S one scrape entry, C1 snapshot of a shard, C2 clean one peer map, C3 retain of a shard): every step of every thread succeeds in every reachable state (nothing blocks: deadlock-free at this granularity; no panic); the sequential view of the shared state remains in simulation with the reference tracker to which each announce is applied at its A2 step, each torrent's cleaning at its C2 step, each scrape entry at its S step - points inside the operation's own execution; every announce reply and scrape entry equals the reference's at that point; every Arc held between steps stays the one stored for its torrent (retain keeps shared or non-empty torrents), hence an answered announce is stored. Lock level (Props/C04Locks over Model/Locks: read / upgradable / write modes, upgrade, one lock per shard and per peer map, any number of workers each running any sequence of the three operations): in every reachable state mutual exclusion holds, every thread keeps the discipline (shard lock with empty hands, peer-map lock only on top of shard locks), and unless all threads have finished some thread has a step that no work-conserving RwLock can refuse (a release, an acquire of a lock nobody holds, an upgrade with no other holder) - independent of reader / writer preference; every run has exactly as many steps as the programs have actions, so every maximal run completes all operations; without the discipline the same locks do deadlock (witness). The table of lock calls of impl TorrentMapShards (function, receiver, mode, guard binding, brace depth, loop, explicit drops) is regenerated from swarm.rs on every run and pinned by lock_sites_as_modelled / lock_scopes_as_modelled. Tie: real threads over one shared TorrentMaps, stopped at gates in the lock-free gaps (hook) and released one at a time; all interleavings of small programs (2-3 threads, torrents in one or two shards, deadlines straddling the cleaning time, incl. the pass that finds a torrent empty while an announce holds its Arc) are enumerated depth-first and each compared with the model run on the same schedule and with the reference at the linearization points; plus 8 free-running threads x 3000 operations under a watchdog.",
+    level_note="partial for the runtime part: that parking_lot's RwLock implements the modes' compatibility table and is work-conserving is trusted; that the guards live exactly as long as the regenerated scope table says (Rust temporaries / block scopes) is read off the table by hand; both are exercised by the gated runs (a thread blocked at a lock held across a gate is reported as HANG) and the free-running stress. One address family and the 16 shards by first hash byte are modelled; access lists are outside C04's quantifier.",
     design_ref="§8 C04",
     assumptions=["gates are placed where the code holds no lock (checked by the HANG detection)", "a multi-torrent scrape / clean is atomic per torrent, as the property states"],
 )
